@@ -35,6 +35,9 @@ def replay_worker(rp, dead, expired):
     bad = conservation(before, incoming, obs, [i for i, e in enumerate(expired) if e])
     if obs['curr'] is not None and obs['curr'] > 1:
         bad.append('one_job_in_flight_at_most')
+    # a live replacement with jobs waiting in the slot's own queue is given the next one (the hand-over cannot be refused: the new worker is alive)
+    if rp['op'] == 'replace' and not dead and obs['queue'] and not obs['handed']:
+        bad.append('a_replacement_with_waiting_jobs_is_offered_the_next_one')
     return {'replayed': bool(bad), 'detail': 'native worker record %s expired=%s dead=%s -> %s ; violated %s' % (rp, expired, dead, obs, bad), 'replay': {'which': 'worker', 'rp': rp, 'dead': dead, 'expired': expired}}
 
 
